@@ -249,6 +249,7 @@ type apState struct {
 	inFlight     map[string]*apCall // client -> running apply call
 	planning     map[string]bool    // client -> plan call in flight
 	liveRev      map[string]string  // processor -> settings revision the running pipeline must be using (nil = unknown)
+	memoryBroken bool               // a roll-back met a store fault of its own
 	statusEvents int
 }
 
@@ -557,6 +558,9 @@ func (o *Oracles) onApplyResult(w *World, st *Stack, c *apCall, planStable bool,
 		msg = err.Error()
 	}
 	stale := strings.Contains(msg, "is stale")
+	if err != nil && c.dbFaults > 1 {
+		o.ap.memoryBroken = true // a roll-back met a store fault of its own: the services' in-memory view is off until restart
+	}
 	unauth := strings.Contains(msg, "requires operator authorization")
 	var eff []string
 	for _, e := range c.effects {
@@ -599,7 +603,7 @@ func (o *Oracles) onApplyResult(w *World, st *Stack, c *apCall, planStable bool,
 		return // another apply may have changed the configuration since: nothing more can be attributed
 	}
 	cur, xerr := st.provisioner().Export(context.Background(), PipelineID)
-	memoryTrusted := err == nil || c.dbFaults <= 1 // (a roll-back whose own store writes fail cannot restore the in-memory view)
+	memoryTrusted := !o.ap.memoryBroken
 	// from now on (until the next apply) every record is processed with the configuration that
 	// is exported: after a success the new one, after a refused or failed apply the old one
 	if xerr == nil && c.dbFaults == 0 {
@@ -656,6 +660,9 @@ func (o *Oracles) onApplyResult(w *World, st *Stack, c *apCall, planStable bool,
 			w.violate("C16", "refused-apply-changed-config", fmt.Sprintf("apply %q was refused but the exported configuration changed: %s", c.kind, diffViews(view{"cfg": oldCanon}, view{"cfg": got})))
 		}
 		return
+	}
+	if o.ap.memoryBroken {
+		return // what "old" was is no longer known: the in-memory view it is taken from has been off since a roll-back failed
 	}
 	if w.hasViolationClass("status-write-overwrote-newer-config") || w.hasViolationClass("import-overwrote-newer-status") {
 		return // the stored document was already damaged by the lost update reported above (its own finding)
